@@ -126,6 +126,36 @@ def work(args):
         if len(fd) >= 3:
             break
     out['form_diff'] = fd
+    # (iv) run_once, the place where a trial's verdict is formed: a scripted noise model hands it chosen errors (the zero error,
+    # generators, logicals, stabilizer x logical, random) and a scripted decoder returns the zero correction, so that the residual
+    # error IS the chosen one; its success / codespace / effective error must be what the code object says about that error
+    try:
+        from panqec.simulation._direct_simulation import run_once
+
+        class _Noise:
+            def __init__(self):
+                self.e = None
+
+            def generate(self, code, error_rate, rng=None):
+                return self.e.copy()
+
+        class _Dec:
+            def decode(self, syndrome, **kw):
+                return np.zeros(2 * n, dtype='uint8')
+        nm_, dc_ = _Noise(), _Dec()
+        ro = []
+        for ci, o in enumerate(out['cases'][:60]):
+            nm_.e = vec(n, o['x'], o['z'])
+            r_ = run_once(code, nm_, dc_, 0.1, rng=np.random.default_rng(0))
+            got = {'ok': bool(r_['success']), 'cs': bool(r_['codespace']), 'le': [int(b) for b in np.asarray(r_['effective_error']).ravel()]}
+            exp = {'ok': o['ok'], 'cs': o['cs'], 'le': o['le']}
+            if got != exp:
+                ro.append({'case': ci, 'x': o['x'], 'z': o['z'], 'run_once': got, 'code_object': exp})
+                if len(ro) >= 3:
+                    break
+        out['run_once_diff'] = ro
+    except Exception as ex:
+        out['run_once_diff'] = [{'case': -1, 'x': [], 'z': [], 'run_once': {'exception': '%s: %s' % (type(ex).__name__, ex)}, 'code_object': {}}]
     # (ii) an object that was USED before being deformed must answer like a fresh one
     if rec['deformation']:
         import panqec.codes as pc
